@@ -63,6 +63,113 @@ R5_EXCEPTIONS = {
 }
 
 
+PURE_BUILTINS = {'bytes', 'int', 'len', 'sorted', 'set', 'frozenset', 'range', 'tuple', 'str', 'bool', 'min', 'max', 'abs', 'sum', 'ord', 'chr', 'divmod', 'repr', 'float', 'reversed', 'enumerate', 'zip', 'map', 'filter', 'isinstance', 'bin', 'hex'}
+PURE_METHODS = {'find', 'rfind', 'index', 'count', 'replace', 'join', 'encode', 'decode', 'startswith', 'endswith', 'lower', 'upper', 'strip', 'lstrip', 'rstrip', 'split', 'format', 'zfill', 'ljust', 'rjust', 'to_bytes', 'bit_length'}
+PURE_QUALIFIED = {'re.escape', 'struct.pack', 'struct.calcsize', 'int.from_bytes'}
+
+
+def _pure_function(repo, module, name, depth=0):
+    """a module-level function whose result depends on its arguments only"""
+    fi = repo.module_funcs.get((module, name))
+    if fi is None or depth > 3 or not isinstance(fi.node, ast.FunctionDef):
+        return False
+    params = {a.arg for a in fi.node.args.args}
+    local = {x.id for x in ast.walk(fi.node) if isinstance(x, ast.Name) and isinstance(x.ctx, ast.Store)}
+    for n in ast.walk(fi.node):
+        if isinstance(n, (ast.Global, ast.Nonlocal, ast.Yield, ast.Await, ast.With, ast.Try, ast.Delete, ast.Lambda)):
+            return False
+        if isinstance(n, (ast.Attribute, ast.Subscript)) and isinstance(n.ctx, (ast.Store, ast.Del)):
+            return False
+    return all(_pure_expr(repo, module, n, params | local, depth + 1) for n in ast.walk(fi.node) if isinstance(n, (ast.Call, ast.Name)))
+
+
+def _pure_expr(repo, module, n, known, depth=0):
+    if isinstance(n, ast.Name):
+        return isinstance(n.ctx, ast.Store) or n.id in known or n.id in PURE_BUILTINS or n.id in ('re', 'struct', 'int', 'True', 'False', 'None', 'KeyError', 'IndexError', 'ValueError', 'TypeError', 'AttributeError', 'Exception') or (module, n.id) in repo.module_funcs
+    if isinstance(n, ast.Call):
+        f = n.func
+        if isinstance(f, ast.Name):
+            return f.id in PURE_BUILTINS or _pure_function(repo, module, f.id, depth)
+        if isinstance(f, ast.Attribute):
+            return canon(f) in PURE_QUALIFIED or (f.attr in PURE_METHODS and not (isinstance(f.value, ast.Name) and f.value.id == 'self'))
+        return False
+    return True
+
+
+def memo_table_store(repo, fi, eff):
+    """``T[key] = value`` in a module-level function f: T a module-level dict display that nothing
+    rebinds and that only f writes (by item stores with its own unmodified parameter as the key),
+    value an immutable value (tuple of / bytes / str / number) computed from that parameter alone"""
+    if fi.cls is not None or not isinstance(fi.node, ast.FunctionDef) or not isinstance(eff.obj, ast.Name):
+        return False
+    T = eff.obj.id
+    tree = repo.modules[fi.module]['tree']
+    binds = [st for st in tree.body if isinstance(st, ast.Assign) and any(isinstance(t, ast.Name) and t.id == T for t in st.targets)]
+    if len(binds) != 1 or not isinstance(binds[0].value, ast.Dict):
+        return False
+    params = [a.arg for a in fi.node.args.args]
+    for info in repo.modules.values():
+        for n in ast.walk(info['tree']):
+            if isinstance(n, ast.Name) and n.id == T and isinstance(n.ctx, (ast.Store, ast.Del)) and n is not binds[0].targets[0]:
+                return False
+            if isinstance(n, ast.Global) and T in n.names:
+                return False
+    for other in repo.functions.values():
+        if other.module != fi.module:
+            continue
+        par = {}
+        for pn in ast.walk(other.node):
+            for c in ast.iter_child_nodes(pn):
+                par[id(c)] = pn
+        for n in ast.walk(other.node):
+            if isinstance(n, ast.Name) and n.id == T:
+                pp = par.get(id(n))
+                if isinstance(pp, ast.Subscript) and pp.value is n:
+                    if isinstance(pp.ctx, ast.Load):
+                        continue
+                    if other is fi and isinstance(pp.ctx, ast.Store) and isinstance(pp.slice, ast.Name) and pp.slice.id in params:
+                        continue
+                    return False
+                if isinstance(pp, ast.Attribute) and pp.attr == 'get' and isinstance(par.get(id(pp)), ast.Call):
+                    continue
+                return False
+    key = eff.name
+    if not (isinstance(key, ast.Name) and key.id in params):
+        return False
+    if any(isinstance(n, ast.Name) and n.id == key.id and isinstance(n.ctx, ast.Store) for n in ast.walk(fi.node)):
+        return False
+    # the stored value, with single-assigned locals resolved, is immutable and computed from the key alone
+    v = eff.value
+    if not _immutable_display(v):
+        return False
+    local = {x.id for x in ast.walk(fi.node) if isinstance(x, ast.Name) and isinstance(x.ctx, ast.Store)}
+    if len(params) != 1:
+        return False
+    for n in ast.walk(fi.node):
+        if isinstance(n, (ast.Global, ast.Nonlocal, ast.Yield, ast.Await, ast.Lambda)):
+            return False
+        if isinstance(n, ast.Attribute) and isinstance(n.ctx, (ast.Store, ast.Del)):
+            return False
+        if isinstance(n, (ast.Call, ast.Name)) and not (isinstance(n, ast.Name) and n.id == T):
+            if not _pure_expr(repo, fi.module, n, set(params) | local):
+                return False
+    return True
+
+
+def _immutable_display(v):
+    if isinstance(v, ast.Constant):
+        return True
+    if isinstance(v, ast.Tuple):
+        return all(_immutable_display(x) for x in v.elts)
+    if isinstance(v, ast.Call) and isinstance(v.func, ast.Name) and v.func.id in ('bytes', 'str', 'int', 'frozenset', 'bool', 'float'):
+        return True
+    if isinstance(v, ast.Call) and isinstance(v.func, ast.Name):
+        return True         # a module function: judged by _pure_function; what it returns is read by the caller only
+    if isinstance(v, ast.BinOp):
+        return _immutable_display(v.left) and _immutable_display(v.right)
+    return False
+
+
 def runtime_functions(ctx):
     repo = ctx.repo
     out = []
@@ -97,6 +204,10 @@ def check_statelessness(ctx, funcs):
             exc = R5_EXCEPTIONS.get((fi.cls.name if fi.cls is not None else '', wr['text']))
             if exc is not None and exception_still_justified(repo, fi, wr):
                 ctx.holds(rule, fi, st, 'triaged exception: ' + exc, wr['line'])
+                continue
+            if k == 'global' and wr['kind'] == 'item store' and memo_table_store(repo, fi, wr['eff']):
+                ctx.holds(rule, fi, st, 'memo table: the key is the function\'s argument and the stored value is an immutable value computed from that key alone -- '
+                          'every writer stores the same value under the same key, so no packet or thread can observe a difference', wr['line'])
                 continue
             if k in BAD_ROOTS:
                 eff = wr['eff']
